@@ -51,7 +51,8 @@ REQUIRED_COUNTERS = ['deformed_objects', 'rows_relabelled_and_compared',
                      'error_images_compared', 'noise_tables_compared',
                      'joint_laws_compared', 'histories_checked',
                      'history_steps', 'permutation_queries',
-                     'same_object_axis_queries', 'hadamard_helper_masks']
+                     'same_object_axis_queries', 'hadamard_helper_masks',
+                     'copies_of_deformed_objects_judged']
 
 LET2BITS = {'I': (0, 0), 'X': (1, 0), 'Y': (1, 1), 'Z': (0, 1)}
 BITS2LET = {v: k for k, v in LET2BITS.items()}
@@ -378,6 +379,19 @@ def check_history(out, cls, size, rng, fresh_states):
         if key not in fresh_states:
             fresh_states[key] = observable_state(
                 fam.build(cls, size, last[0], last[1]))
+        # the deformed object is sometimes handed on as a copy (a batch
+        # builder, a worker process): the copy is the same deformed code
+        how = str(rng.choice(['none', 'none', 'deepcopy', 'copy',
+                              'read-then-deepcopy']))
+        if how != 'none':
+            import copy
+            if how == 'read-then-deepcopy':
+                code.stabilizer_matrix
+                hist.append(['read', 'stabilizer_matrix'])
+            code = copy.deepcopy(code) if 'deepcopy' in how else \
+                copy.copy(code)
+            hist.append([how])
+            out.count('copies_of_deformed_objects_judged')
         got = observable_state(code)
     except Exception as e:
         where = panqec_frame(e)
